@@ -14,5 +14,5 @@ CONSTANTS
   MaxMsgs = 4
 VIEW MCView
 INVARIANTS TypeOK NodeHasChannel PolicyHasChannel RelayedAuthentic ZombieNotInGraph ClosedIsZombie StashOnlyUpdates
-PROPERTIES OnlyAuthenticFresh NoRelayWithoutApply PolicyMonotone NodeMonotone ChannelsStay
+PROPERTIES ZombieOnlyByOwner OnlyAuthenticFresh NoRelayWithoutApply PolicyMonotone NodeMonotone ChannelsStay
 CHECK_DEADLOCK FALSE
